@@ -171,6 +171,27 @@ func getUpdatedHeaders(
 	cachedResponse CachedResponse,
 	clock clock.Clock,
 ) (map[string]string, error) {
+	if remedyConfig.RetryAfterType == sharedConfig.RetryAfterAbsoluteEpoch {
+		// The stored entry can outlive the provider's instant: its expiry is
+		// the remaining time (computed from one clock reading) added to a
+		// later clock reading inside Set. Do not serve it past that instant.
+		remaining, err := readRetryAfter(
+			cachedResponse.Headers,
+			remedyConfig,
+			clock,
+		)
+		if err != nil {
+			return nil, err
+		}
+		if remaining < 0 {
+			return nil, fmt.Errorf(
+				"Retry-After time has already passed for transaction ID [%v]",
+				cachedResponse.ID,
+			)
+		}
+		return cachedResponse.Headers, nil
+	}
+
 	if remedyConfig.RetryAfterType != sharedConfig.RetryAfterRelativeSeconds {
 		return cachedResponse.Headers, nil
 	}
